@@ -1,6 +1,6 @@
 import Prism.Proofs.C18
-open Prism
-#print axioms C18_pulled_bound
-#print axioms C18_within_64k
-#print axioms C18_bufsize_matches_code
-#print axioms C18_result_is_functional
+
+#print axioms Prism.C18_pulled_bound
+#print axioms Prism.C18_within_64k
+#print axioms Prism.C18_bufsize_matches_code
+#print axioms Prism.C18_result_is_functional
